@@ -27,6 +27,19 @@ const c01TraceCap = 4000
 type goTrace struct {
 	n     int
 	shown []string
+	ring  [64]string // the last 64 observations
+}
+
+func (t *goTrace) tail() []string {
+	k := t.n
+	if k > 64 {
+		k = 64
+	}
+	out := make([]string, 0, k)
+	for i := t.n - k; i < t.n; i++ {
+		out = append(out, t.ring[i%64])
+	}
+	return out
 }
 
 // EvalSrcTraced is EvalSrc with the dispatch trace of every VM that runs meanwhile (the
@@ -34,9 +47,11 @@ type goTrace struct {
 func EvalSrcTraced(src string, timeout time.Duration) (EvalOut, goTrace) {
 	var t goTrace
 	vm.VerifTrace = func(_ *vm.VirtualMachine, id string, ip int, _ op.Code, sp int, _ int) {
+		ent := fmt.Sprintf("%s:%d:%d", id, ip, sp+1)
 		if t.n < c01TraceCap {
-			t.shown = append(t.shown, fmt.Sprintf("%s:%d:%d", id, ip, sp+1))
+			t.shown = append(t.shown, ent)
 		}
+		t.ring[t.n%64] = ent
 		t.n++
 	}
 	defer func() { vm.VerifTrace = nil }()
@@ -107,7 +122,38 @@ func c01TraceCompare(goOut string, gt goTrace, reply string) (string, string) {
 			break
 		}
 	}
-	if first < 0 && fmt.Sprint(gt.n) == f[3] {
+	var mtail []string
+	if len(f) > 5 && f[5] != "-" {
+		mtail = strings.Split(f[5], ",")
+	}
+	// when the run ends in a recovered Go panic, what happens while it unwinds is not modelled (see
+	// panicDispatchIndex in VM.lean): the traces are compared up to the instruction that panics
+	pidx := -1
+	if len(f) > 6 && f[6] != "-" && strings.HasPrefix(outcome, "err\tpanic") {
+		fmt.Sscanf(f[6], "%d", &pidx)
+	}
+	if pidx >= 0 && (first < 0 || first >= pidx) && gt.n >= pidx {
+		var mn int
+		fmt.Sscanf(f[3], "%d", &mn)
+		if first >= 0 || pidx <= c01TraceCap {
+			return outcome, "" // everything before the panic agrees (first 4000 cover it, or no difference there)
+		}
+		// the panic lies beyond the first 4000: compare the tails up to it
+		gtail0, mtail0 := gt.tail(), mtail
+		g0, m0 := gt.n-len(gtail0), mn-len(mtail0)
+		okTail := true
+		for i := max(g0, m0); i < pidx; i++ {
+			if i-g0 < 0 || i-g0 >= len(gtail0) || i-m0 < 0 || i-m0 >= len(mtail0) || gtail0[i-g0] != mtail0[i-m0] {
+				okTail = false
+				break
+			}
+		}
+		if okTail {
+			return outcome, ""
+		}
+	}
+	gtail := gt.tail()
+	if first < 0 && fmt.Sprint(gt.n) == f[3] && strings.Join(gtail, ",") == strings.Join(mtail, ",") {
 		return outcome, ""
 	}
 	at := func(xs []string, i int) string {
@@ -117,6 +163,31 @@ func c01TraceCompare(goOut string, gt goTrace, reply string) (string, string) {
 		return "(end)"
 	}
 	if first < 0 {
+		// the first 4000 agree: show where the ends part (aligned from the start of the run)
+		var mn int
+		fmt.Sscanf(f[3], "%d", &mn)
+		g0, m0 := gt.n-len(gtail), mn-len(mtail)
+		lo := g0
+		if m0 > lo {
+			lo = m0
+		}
+		for i := lo; i < gt.n || i < mn; i++ {
+			ge, me := "(end)", "(end)"
+			if i < gt.n && i-g0 >= 0 {
+				ge = gtail[i-g0]
+			}
+			if i < mn && i-m0 >= 0 {
+				me = mtail[i-m0]
+			}
+			if ge != me {
+				prev := "(start of the window)"
+				if i-g0-1 >= 0 && i-g0-1 < len(gtail) {
+					prev = gtail[i-g0-1]
+				}
+				return outcome, fmt.Sprintf("%d instructions dispatched; instruction #%d is %s (after %s)", gt.n, i, ge, prev) + "\x00" +
+					fmt.Sprintf("%s instructions dispatched; instruction #%d is %s", f[3], i, me)
+			}
+		}
 		return outcome, fmt.Sprintf("%d instructions dispatched", gt.n) + "\x00" + f[3] + " instructions dispatched"
 	}
 	return outcome, fmt.Sprintf("instruction #%d is %s (after %s)", first, at(gt.shown, first), at(gt.shown, first-1)) + "\x00" +
